@@ -113,7 +113,10 @@ func genPC(t *rapid.T, a *archT) uint64 {
 }
 
 // genEA: an effective address for a data access of the given size.
-func genEA(t *rapid.T, a *archT, size int) uint64 {
+func genEA(t *rapid.T, a *archT, size int, pc uint64) uint64 {
+	if rapid.IntRange(0, 31).Draw(t, "ea-at-pc") == 0 { // data access to the instruction itself / its neighbours
+		return pc + uint64(rapid.IntRange(-8, 8).Draw(t, "eapcoff"))
+	}
 	bases := []uint64{0x80002000, 0x2000, 0x80fffff0}
 	if a.xlen == 64 {
 		bases = append(bases, 0x120002000, 0x9000000000300000, 0xffffffff00000000)
@@ -339,7 +342,7 @@ func genRV(t *rapid.T, a *archT, h hotMn, k *kase) (*kase, string) {
 	switch {
 	case din.opcode == opLOAD || din.opcode == opSTORE:
 		size := map[uint32]int{0: 1, 1: 2, 2: 4, 3: 8}[din.f3&3]
-		ea := genEA(t, a, size)
+		ea := genEA(t, a, size, k.PC)
 		if d.rs1 != 0 {
 			k.setX(a, d.rs1, ea-uint64(d.imm))
 		} else {
@@ -437,7 +440,7 @@ func genLA(t *rapid.T, a *archT, h hotMn, k *kase) (*kase, string) {
 	isStore := strings.HasPrefix(din.name, "ST.")
 	if isLoad || isStore {
 		size := map[byte]int{'B': 1, 'H': 2, 'W': 4, 'D': 8}[din.name[3]]
-		ea := genEA(t, a, size)
+		ea := genEA(t, a, size, k.PC)
 		if d.rj != 0 {
 			k.setX(a, d.rj, ea-uint64(d.imm))
 		} else {
